@@ -416,12 +416,79 @@ def opt_val(t, a, p, litp, bind=None):
     raise Und("term %s" % show(t)[:50])
 
 
+def _predicate_via_helper(prog, fn, kids, total):
+    """the scan written as `self.helper(|lit| <status of lit>)` where the helper quantifies `clauses.all(|c| c.any(pred))`:
+    the closure handed to the helper is the literal predicate; how the helper uses its parameter says how it is quantified"""
+    from . import canon
+    key = "%s:literal-status" % fn.npath
+    for cs in fn.terms.calls:
+        c = cs.callee
+        if not (c.local or getattr(c, "res_local", False)):
+            continue
+        hs = [h for h in prog.resolve(c) if h.kind != "Closure"]
+        if len(hs) != 1:
+            continue
+        h = hs[0]
+        for i, a in enumerate(cs.args):
+            a0 = strip(a)
+            while isinstance(a0, tuple) and a0 and a0[0] in ("ref", "deref"):
+                a0 = strip(a0[1])
+            if not (isinstance(a0, tuple) and a0 and a0[0] == "agg" and a0[1] == "closure"):
+                continue
+            gs = [g for g in kids if g.npath == a0[2]]
+            if len(gs) != 1:
+                continue
+            g = gs[0]
+            pname = h.arg_name(i + 1)
+            how = []
+            for b in [h] + [x for x in prog.lib_fns if x.npath.startswith(h.npath + "::{closure")]:
+                for c2 in b.terms.calls:
+                    def _direct(a2):
+                        x = strip(a2)
+                        while isinstance(x, tuple) and x and x[0] in ("ref", "deref"):
+                            x = strip(x[1])
+                        return x == ("param", i + 1) or (isinstance(x, tuple) and x and x[0] == "upvar" and x[1] == pname)
+                    if c2.callee.name in ("any", "all", "find", "position", "filter", "map", "count", "for_each") and \
+                            any(_direct(a2) for a2 in c2.args[1:]):
+                        how.append(c2.callee.name)
+            if how != ["any"]:
+                return inst("LC", key, UNDECIDED, fn, None, "? the literal predicate is handed to %s, which uses it by %s" % (h.name, how))
+            # the helper must demand the predicate of *every* clause
+            hall = [c2.callee.name for c2 in h.terms.calls if c2.callee.name in ("all", "any", "find", "filter", "position")]
+            if not any(x[0] == "field" and x[2] == "clauses" for t_ in [h.terms.ret] + [a2 for c2 in h.terms.calls for a2 in c2.args]
+                       for x in [strip(t_)] + list(mir.subterms(t_)) if isinstance(x, tuple) and x):
+                hall = []
+            if hall != ["all"]:
+                return inst("LC", key, UNDECIDED, fn, None, "? %s does not quantify the clause list with all(): %s" % (h.name, hall))
+            r = canon.inline_top(prog, g.terms, g.terms.ret, depth=2)
+            names = a0[5] if len(a0) > 5 and a0[5] else ()
+            litp = ("param", 2)
+            errs = []
+            try:
+                for av in ((0, 1) if total else (None, 0, 1)):
+                    for p in (0, 1):
+                        got = opt_val(r, av, p, litp)
+                        want = int(av is not None and av == p)
+                        if got != want:
+                            errs.append("the predicate is %s for a literal of polarity %s whose variable is %s"
+                                        % (bool(got), bool(p), "unassigned" if av is None else bool(av)))
+            except Und as e:
+                return inst("LC", key, UNDECIDED, fn, None, "? predicate not interpretable: %s" % e)
+            return inst("LC", key, VIOLATION if errs else OK, g, None,
+                        errs[0] if errs else "%s(|lit| ..): every clause has a literal for which the predicate holds; it holds exactly "
+                        "for a satisfied literal" % h.name)
+    return None
+
+
 def predicate_form(prog, fn, total=False):
     """the scan written with an iterator predicate (`clause.iter().any(|lit| ..)`): the predicate must hold exactly for a
     satisfied literal"""
     _PROG[0] = prog
     key = "%s:literal-status" % fn.npath
     kids = [g for g in prog.lib_fns if g.npath.startswith(fn.npath + "::{closure")]
+    via = _predicate_via_helper(prog, fn, kids, total)
+    if via is not None:
+        return via
     cand = []
     for g in kids:
         for cs in g.terms.calls:
@@ -461,12 +528,18 @@ def run(prog):
                                                                 or owner in f.npath)]
         if len(fns) != 1:
             raise CheckerError("LC: site %s::%s not found (%d candidates)" % (owner, name, len(fns)))
-        fn = fns[0]
+        fn0 = fns[0]
+        # the literal loop may live in a closure of the function (`let compile_clause = |clause| { for lit in clause .. }`)
+        fn, gets = fn0, []
+        for cand_ in [fn0] + [x for x in prog.lib_fns if x.npath.startswith(fn0.npath + "::{closure")]:
+            gs_ = [cs for cs in cand_.terms.calls if cs.callee.name == "get" and "PartialModel" in cs.callee.key()
+                   and len(cs.args) == 2 and mir.is_call(strip(cs.args[1]), "label") and "next(" in show(cs.args[1])]
+            if len(gs_) == 1:
+                fn, gets = cand_, gs_
+                break
         te, cfg = fn.terms, fn.cfg
-        gets = [cs for cs in te.calls if cs.callee.name == "get" and "PartialModel" in cs.callee.key()
-                and len(cs.args) == 2 and mir.is_call(strip(cs.args[1]), "label") and "next(" in show(cs.args[1])]
         if len(gets) != 1:
-            out.append(predicate_form(prog, fn))
+            out.append(predicate_form(prog, fn0))
             continue
         g = gets[0]
         lit = strip(strip(g.args[1])[2][0])
@@ -571,7 +644,7 @@ def run(prog):
             go(start, [], {start}, 0)
             return frozenset(res)
 
-        key = "%s:literal-status" % fn.npath
+        key = "%s:literal-status" % fn0.npath
         try:
             S = {(a, p): sig(a, p) for a in (None, 0, 1) for p in (0, 1)}
         except Und as e:
